@@ -10,7 +10,7 @@ def run(env, rep):
         "interpretation (interval refinement of the deciding branch), the object-property / terminator grammar and the "
         "strict-array loop bound equal the specification table; R3: every failed read ends in an error return and no read "
         "Result is discarded; R4: the encoder refuses (builds an error for) a value only where AMF0 cannot express it - a byte length above 65,535, or the empty "
-        "property name - classified per variant on every error path by what the path's state proves about the lengths.  Not decided: conformance for every value (follows by structural induction, stated not mechanised).")
+        "property name - classified per variant on every error path by what the path's state proves about the lengths; R5 (= C04 R1-R2): a length prefix is the byte length itself, never a truncation of it, and the reserved name length 0 is not written.  Not decided: conformance for every value (follows by structural induction, stated not mechanised).")
     rep.assumptions = ["byteorder's write_uN::<E>/read_uN::<E> encode the named width and byte order", "the specification table /verif/spec/amf0.json is transcribed correctly"]
     rep.exhaustive = True
     spec = amf0.load_spec()
@@ -18,3 +18,8 @@ def run(env, rep):
     amf0.check_decoder(env, rep, "C12.R2", spec)
     amf0.check_error_discipline(env, rep, "C12.R3")
     amf0.check_encoder_refusals(env, rep, "C12.R4")
+    # R5: the length prefixes are the byte lengths, never a truncation of them (C04 R1-R2)
+    from ..framework import PrefixReport, wants
+    if wants(rep, "C12.R5"):
+        from . import C04
+        C04.run(env, PrefixReport(rep, "C04.", "C12.R5.", only=("C04.R1", "C04.R2")))
